@@ -19,6 +19,7 @@ import (
 	"verif/checks/c10"
 	"verif/checks/c11"
 	"verif/checks/c12"
+	"verif/checks/c13"
 	"verif/checks/c15"
 	"verif/checks/c16"
 	"verif/checks/c17"
@@ -45,6 +46,7 @@ var checks = map[string]check{
 	"C10": {"fault_enumeration", c10.Run, c10.Replay},
 	"C11": {"model_checking", c11.Run, c11.Replay},
 	"C12": {"model_checking", c12.Run, c12.Replay},
+	"C13": {"fault_enumeration", c13.Run, c13.Replay},
 	"C15": {"exploration", c15.Run, c15.Replay},
 	"C16": {"exploration", c16.Run, c16.Replay},
 	"C17": {"exploration", c17.Run, c17.Replay},
